@@ -11,7 +11,7 @@ pub fn props() -> Vec<Prop> {
         id: "C08",
         run: c08,
         tools: None,
-        rule: "seeded random trees (<= 12 nodes quick, <= 25 thorough; files, directories, links to files / directories / ancestors / absent paths, link cycles) x the full cross-product of entries() options (min_depth 0-3, max_depth 0-3/unbounded, none/dirs/files filter or one of 2 custom predicates, follow, sort_by_name, dirs_first, files_first, contents_first; ~3 k option records per tree, thinned by a seeded stride in quick) x descriptor caps {0,1,2,50} (hook) and a 60-deep chain without the hook. A reference walker computes from the reference tree what the options denote; checked on the produced sequence: termination within 2*|expected|+8 items, multiset equality (path, alt, kind flags, following), no item a filter rejects, parent before contents (after with contents_first), exact sequence equality whenever an order is requested (sort_by_name / dirs_first / files_first), LinkLooping instead of endless descent, equality across descriptor caps. paths/dirs/files/all_* are checked for absolute, distinct, name-sorted, argument-free results that agree with exists/is_dir/is_file in both directions. Memfs for all, Stdfs (materialised with std::fs) for a sample of in-domain trees. distinct_nontrivial = distinct (backend, option record class, tree shape class, outcome class) tuples. Later additions: a third of the trees use sibling names that are string prefixes of each other; a directed family on the real backend of link cycles whose target path runs through another link, judged on termination while polling past errors (recorded finding); a panicking traversal is a violation.",
+        rule: "seeded random trees (<= 12 nodes quick, <= 25 thorough; files, directories, links to files / directories / ancestors / absent paths, link cycles) x the full cross-product of entries() options (min_depth 0-3, max_depth 0-3/unbounded, none/dirs/files filter or one of 2 custom predicates, follow, sort_by_name, dirs_first, files_first, contents_first; ~3 k option records per tree, thinned by a seeded stride in quick) x descriptor caps {0,1,2,50} (hook) and a 60-deep chain without the hook. A reference walker computes from the reference tree what the options denote; checked on the produced sequence: termination within 2*|expected|+8 items, multiset equality (path, alt, kind flags, following), no item a filter rejects, parent before contents (after with contents_first), exact sequence equality whenever an order is requested (sort_by_name / dirs_first / files_first), LinkLooping instead of endless descent, equality across descriptor caps. paths/dirs/files/all_* are checked for absolute, distinct, name-sorted, argument-free results that agree with exists/is_dir/is_file in both directions. Memfs for all, Stdfs (materialised with std::fs) for a sample of in-domain trees. distinct_nontrivial = distinct (backend, option record class, tree shape class, outcome class) tuples. Later additions: a third of the trees use sibling names that are string prefixes of each other; a directed family on the real backend of link cycles whose target path runs through another link, judged on termination while polling past errors (the defect this showed - loop detection on path text - is fixed in /repo); a panicking traversal is a violation.",
         assumptions: &[
             "link-to-link chains are generated only with follow == false (the statement does not define them under follow)",
             "sibling order is only judged when an order is requested; ties in file name between a followed link and a sibling fall back to multiset comparison",
